@@ -94,12 +94,82 @@ def factories(prog, blds):
         for g in prog.funcs:
             if g.parent is f and prog.numba_kind(g)[0] == 'vectorize':
                 rets = [n for n in ast.walk(g.node) if isinstance(n, ast.Return)]
-                good = len(rets) == 1 and isinstance(rets[0].value, ast.Subscript) and norm(rets[0].value.value) == tname \
-                    and isinstance(rets[0].value.slice, ast.Name) and rets[0].value.slice.id in g.params
+                good = lookup_shape(g, tname)
                 returned = any(isinstance(n, ast.Return) and isinstance(n.value, ast.Name) and n.value.id == g.name
                                for n in ast.walk(f.node) if n not in ast.walk(g.node))
                 if returned:
                     out[f] = dict(builder=calls_builder[1], nested=g, plain_lookup=good, call=calls_builder[2])
+    return out
+
+
+def lookup_shape(g, tname):
+    """shape of the element-wise lookup g: 'plain' (return T[x]), 'guarded2' (T[x] under a two-sided bound on x, else the
+    sentinel), 'guarded1' (only one side of x is bounded), or None (something else)."""
+    x = g.params[0] if g.params else None
+    rets = [n for n in ast.walk(g.node) if isinstance(n, ast.Return)]
+
+    def is_lookup(r):
+        return isinstance(r.value, ast.Subscript) and norm(r.value.value) == tname and isinstance(r.value.slice, ast.Name) \
+            and r.value.slice.id == x
+
+    def is_sentinel(r):
+        return const_value(r.value) == -1
+    looks = [r for r in rets if is_lookup(r)]
+    if len(rets) == 1 and looks:
+        return 'plain'
+    if len(looks) == 1 and all(is_lookup(r) or is_sentinel(r) for r in rets):
+        from . import astutil
+        pm = astutil.parents(g.node)
+        lower = upper = False
+        for test, pol in astutil.guards(looks[0], pm):
+            if not pol:
+                continue
+            comps = test.values if isinstance(test, ast.BoolOp) and isinstance(test.op, ast.And) else [test]
+            for c in comps:
+                if not isinstance(c, ast.Compare):
+                    continue
+                items = [c.left] + list(c.comparators)
+                for (a, op, b) in zip(items, c.ops, items[1:]):
+                    an, bn = norm(a), norm(b)
+                    if an == x and isinstance(op, (ast.Lt, ast.LtE)) or bn == x and isinstance(op, (ast.Gt, ast.GtE)):
+                        upper = True
+                    if an == x and isinstance(op, (ast.Gt, ast.GtE)) and const_value(b) in (0, -1) or \
+                            bn == x and isinstance(op, (ast.Lt, ast.LtE)) and const_value(a) in (0, -1):
+                        lower = True
+        return 'guarded2' if lower and upper else 'guarded1'
+    return None
+
+
+ORDER_DESTROYING = {'set', 'frozenset', 'sorted', 'unique', 'sort', 'argsort'}
+
+
+def order_destroyed_uses(prog, funcs):
+    """uses, inside the lookup construction functions, of a value derived from a parameter through an order-destroying
+    function (set/frozenset/sorted/unique/sort) as a key/subscript, iterable or call argument."""
+    out = []
+    for f in funcs:
+        tainted = {}
+        for n in ast.walk(f.node):
+            if isinstance(n, ast.Assign) and len(n.targets) == 1 and isinstance(n.targets[0], ast.Name):
+                for c in ast.walk(n.value):
+                    if isinstance(c, ast.Call) and norm(c.func).split('.')[-1] in ORDER_DESTROYING \
+                            and ({x.id for x in ast.walk(c) if isinstance(x, ast.Name)} & set(f.params)):
+                        tainted[n.targets[0].id] = (n, norm(c.func).split('.')[-1])
+        for n in ast.walk(f.node):
+            if isinstance(n, ast.Subscript):
+                for x in ast.walk(n.slice):
+                    if isinstance(x, ast.Name) and x.id in tainted:
+                        out.append((f, n, x.id, tainted[x.id][1], 'key/subscript'))
+            elif isinstance(n, ast.For):
+                for x in ast.walk(n.iter):
+                    if isinstance(x, ast.Name) and x.id in tainted:
+                        out.append((f, n.iter, x.id, tainted[x.id][1], 'iteration'))
+            elif isinstance(n, ast.Call):
+                r = prog.resolve(f.mod, n.func) if isinstance(n.func, (ast.Name, ast.Attribute)) else None
+                if r and r[0] == 'func':
+                    for a in n.args:
+                        if isinstance(a, ast.Name) and a.id in tainted:
+                            out.append((f, n, a.id, tainted[a.id][1], 'argument'))
     return out
 
 
